@@ -29,6 +29,7 @@ import (
 	"github.com/internetarchive/Zeno/internal/pkg/config"
 	"github.com/internetarchive/Zeno/internal/pkg/controler"
 	"github.com/internetarchive/Zeno/internal/pkg/controler/pause"
+	"github.com/internetarchive/Zeno/internal/pkg/preprocessor/seencheck"
 	"github.com/internetarchive/Zeno/internal/pkg/reactor"
 	"github.com/internetarchive/Zeno/internal/pkg/source/lq"
 	"github.com/internetarchive/gocrawlhq"
@@ -570,6 +571,21 @@ func runE2E(in map[string]any) string {
 	}
 	if boolean(in, "inspectOnly", false) {
 		inspectJob(job, report)
+		// which of these canonical URLs does the persisted seen-store hold?
+		if urls := strList(in, "seenQuery"); len(urls) > 0 {
+			if _, err := os.Stat(filepath.Join("jobs", job, "seencheck")); err == nil {
+				if err := seencheck.Start(filepath.Join("jobs", job)); err == nil {
+					rec := map[string]string{}
+					for _, u := range urls {
+						if ok, typ := seencheck.VerifRecorded(u); ok {
+							rec[u] = typ
+						}
+					}
+					seencheck.Close()
+					report["seenStore"] = rec
+				}
+			}
+		}
 		out, _ := json.Marshal(report)
 		return string(out)
 	}
